@@ -1192,3 +1192,60 @@ def r5_9(run):
 
 RULES = [("R5.1", r5_1), ("R5.2", r5_2), ("R5.3", r5_3), ("R5.4", r5_4), ("R5.5", r5_5), ("R5.6", r5_6),
          ("R5.7", r5_7), ("R5.8", r5_8), ("R5.9", r5_9)]
+
+EXPLANATION += (' ' + "(R5.11) a result column that extract_results fills only under a solver option (compr_power_mw under "
+                "calc_compression_power) is put into the result table by get_result_table under the same option and polarity: a column that "
+                "is created but not written stays NaN in the rows of supplied, in-service elements of a run that returns normally.")
+
+
+def r5_11(run):
+    """a returned result is finite in every row of a calculated element: the table layout (get_result_table) and the writer
+    (extract_results) of a component agree on the solver options a column depends on.  For every component, every column name that
+    occurs in extract_results only under a literal `get_net_option(net, X)` / `options[X]` (same polarity at every occurrence) must occur
+    in get_result_table only under that literal too."""
+    import re
+    from ..pathcond import parents, path_condition
+    ix = run.index
+    opt_re = re.compile(r"""(?:get_net_option\(\s*net\s*,\s*|options\[|options\.get\(\s*)['"](\w+)['"]""")
+
+    def occurrences(m):
+        par = parents(m.node)
+        out = {}
+        for n in ast.walk(m.node):
+            if isinstance(n, ast.Constant) and isinstance(n.value, str) and n is not getattr(m.node.body[0], "value", None):
+                lits = set()
+                for lit, pol in path_condition(m.node, n, par):
+                    mo = opt_re.search(lit)
+                    if mo and lit.strip().startswith(mo.group(0)[:6]):
+                        lits.add((mo.group(1), pol))
+                out.setdefault(n.value, []).append((lits, n))
+        return out
+
+    seen = set()
+    gated = 0
+    for ci in ix.components():
+        t = ix.lookup_method(ci, "get_result_table")
+        m = ix.lookup_method(ci, "extract_results")
+        if t is None or m is None or (t.qualname, m.qualname) in seen:
+            continue
+        seen.add((t.qualname, m.qualname))
+        run.analysed(t)
+        run.analysed(m)
+        tocc, mocc = occurrences(t), occurrences(m)
+        for col, occ in sorted(mocc.items()):
+            if col not in tocc:
+                continue
+            common = set.intersection(*[l for l, _ in occ])
+            for L in sorted(common):
+                gated += 1
+                bad = [n for l, n in tocc[col] if L not in l]
+                run.ob("%s|%s|created-iff-written|%s=%s" % (t.short.split(".")[0], col, L[0], L[1]), not bad,
+                       "column %r is written only when option %s is %s, so the result table gets it only then" % (col, L[0], L[1]),
+                       run.where(t, bad[0] if bad else tocc[col][0][1]))
+    run.stat("option_gated_result_columns", gated)
+    if gated < 1:
+        raise AnalysisError("no option-gated result column found (compr_power_mw under calc_compression_power expected)")
+    run.floor(1)
+
+
+RULES.append(("R5.11", r5_11))
